@@ -78,7 +78,7 @@ fn directed_scripts(corpus: &[String], rng: &mut Rng) -> Vec<(String, Script)> {
             delays: vec![("TIMER_WAKE".into(), d)], checked_build: false }));
     }
     // unlimited search on a tiny position: deepens past depth 30 within a second
-    for f in ["8/2k5/8/8/8/8/3K4/8 w - - 0 1", "8/8/8/4k3/8/8/4P3/4K3 w - - 0 1"] {
+    for f in ["8/2k5/8/8/8/8/3K4/8 w - - 0 1", "8/8/8/4k3/8/8/4P3/4K3 w - - 0 1", "8/8/4k3/4p3/4P3/4K3/8/8 w - - 0 1"] {
         for checked in [false, true] {
             v.push((format!("infinite-on-tiny/{f}/checked={checked}"), Script {
                 cmds: vec![Cmd::Position(Root { fen: f.into(), moves: vec![] }), Cmd::GoInfinite, Cmd::SleepMs(1500), Cmd::IsReady, Cmd::Stop,
@@ -88,7 +88,7 @@ fn directed_scripts(corpus: &[String], rng: &mut Rng) -> Vec<(String, Script)> {
     }
     // depth limits beyond the depth cap on tiny positions (iterations fly by there)
     for f in ["8/8/4k3/8/8/4K3/8/8 w - - 0 1", "8/8/8/3k4/8/3K4/8/8 w - - 0 1", "k1p5/p1p5/P1P5/8/7p/p1p5/P1P4P/K1P5 w - - 0 1", "8/2k5/8/8/8/8/3K4/8 b - - 0 1"] {
-        for d in [65u8, 66, 100, 255] {
+        for d in [50u8, 65, 66, 100, 255] {
             for checked in [false, true] {
                 let r = Root { fen: f.into(), moves: vec![] };
                 v.push((format!("deep-limit-on-tiny/{f}/depth{d}/checked={checked}"), Script {
@@ -149,8 +149,10 @@ fn random_script(corpus: &[String], rng: &mut Rng) -> Script {
                 }
             }
             7 => {
-                let t = rng.range(7600, 10000);
-                cmds.push(Cmd::GoClock(t, rng.range(7600, 10000), rng.range(0, 40), rng.range(0, 40)));
+                // clocks incl. very low ones (the budget is then zero: the move comes at once)
+                let pick = |rng: &mut Rng| *rng.pick(&[0u64, 1, 50, 120, 149, 150, 151, 1000, 3000, 7600, 9000, 10000]);
+                let (w, b) = (pick(rng), pick(rng));
+                cmds.push(Cmd::GoClock(w, b, rng.range(0, 40), rng.range(0, 40)));
                 cmds.push(if rng.chance(1, 2) { Cmd::Await } else { Cmd::Wait });
             }
             _ => {
@@ -380,6 +382,8 @@ pub fn replay_session(prop: &str, case: &Value, out: &mut Out) {
 // C13: time budget
 
 struct TimeCase {
+    /// a (large) depth limit given together with the time budget
+    with_depth: bool,
     /// `movetime` given together with the four clock parameters (either order)
     both: u8,
     /// stretch the window between creating the timer thread and raising the running flag (ms)
@@ -394,6 +398,15 @@ struct TimeCase {
 
 impl TimeCase {
     fn cmd(&self) -> String {
+        let c = self.cmd_plain();
+        if self.with_depth {
+            // the depth limit is far beyond what the budget allows: the budget must end the search
+            if self.delay_ms % 2 == 0 { format!("{c} depth 60") } else { c.replacen("go ", "go depth 60 ", 1) }
+        } else {
+            c
+        }
+    }
+    fn cmd_plain(&self) -> String {
         match (self.both, self.movetime) {
             (1, Some(m)) => return format!("go movetime {m} wtime {} btime {} winc {} binc {}", self.w, self.b, self.wi, self.bi),
             (2, Some(m)) => return format!("go wtime {} btime {} winc {} binc {} movetime {m}", self.w, self.b, self.wi, self.bi),
@@ -405,7 +418,7 @@ impl TimeCase {
         }
     }
     fn json(&self) -> Value {
-        json!({"kind":"time","white_to_move":self.white_to_move,"cmd":self.cmd(),"wtime":self.w,"btime":self.b,"winc":self.wi,"binc":self.bi,"movetime":self.movetime,"delay_ms":self.delay_ms,"both":self.both})
+        json!({"kind":"time","white_to_move":self.white_to_move,"cmd":self.cmd(),"wtime":self.w,"btime":self.b,"winc":self.wi,"binc":self.bi,"movetime":self.movetime,"delay_ms":self.delay_ms,"both":self.both,"with_depth":self.with_depth})
     }
     fn available(&self) -> u64 {
         if self.both > 0 {
@@ -453,13 +466,13 @@ fn gen_time_case(rng: &mut Rng) -> TimeCase {
         }
     };
     if rng.chance(1, 6) {
-        return TimeCase { both: 0, delay_ms: 0, white_to_move: rng.chance(1, 2), w: 0, b: 0, wi: 0, bi: 0, movetime: Some(match rng.below(4) { 0 => rng.range(0, 6), 1 => rng.range(0, 500), 2 => rng.range(500, 100_000), _ => rng.range(0, 60) }) };
+        return TimeCase { with_depth: false, both: 0, delay_ms: 0, white_to_move: rng.chance(1, 2), w: 0, b: 0, wi: 0, bi: 0, movetime: Some(match rng.below(4) { 0 => rng.range(0, 6), 1 => rng.range(0, 500), 2 => rng.range(500, 100_000), _ => rng.range(0, 60) }) };
     }
     let w = clock(rng);
     let b = clock(rng);
     let wi = inc(rng, w);
     let bi = inc(rng, b);
-    TimeCase { both: 0, delay_ms: 0, white_to_move: rng.chance(1, 2), w, b, wi, bi, movetime: None }
+    TimeCase { with_depth: false, both: 0, delay_ms: 0, white_to_move: rng.chance(1, 2), w, b, wi, bi, movetime: None }
 }
 
 fn c13_one(out: &mut Out, sess: &mut Option<Session>, checked: bool, tc: &TimeCase, wall_limit_for_wait: u64) {
@@ -621,12 +634,12 @@ pub fn worker_c13(shard: usize, _nshards: usize, seed: u64, tier: &str, out: &mu
     let fixed: Vec<TimeCase> = {
         let mut v = vec![];
         for (w, wi) in [(1000u64, 0u64), (0, 0), (7499, 0), (7500, 0), (7501, 0), (100, 5000), (149, 0), (150, 0), (151, 0), (8000, 0), (60000, 1000), (10, 100000), (7400, 1), (1, 149), (1, 150), (1, 151)] {
-            v.push(TimeCase { both: 0, delay_ms: 0, white_to_move: true, w, b: 60000, wi, bi: 0, movetime: None });
-            v.push(TimeCase { both: 0, delay_ms: 0, white_to_move: false, w: 60000, b: w, wi: 0, bi: wi, movetime: None });
+            v.push(TimeCase { with_depth: false, both: 0, delay_ms: 0, white_to_move: true, w, b: 60000, wi, bi: 0, movetime: None });
+            v.push(TimeCase { with_depth: false, both: 0, delay_ms: 0, white_to_move: false, w: 60000, b: w, wi: 0, bi: wi, movetime: None });
         }
         for m in [0u64, 1, 2, 3, 4, 5, 6, 10, 100, 499] {
-            v.push(TimeCase { both: 0, delay_ms: 0, white_to_move: m % 2 == 0, w: 0, b: 0, wi: 0, bi: 0, movetime: Some(m) });
-            v.push(TimeCase { both: 0, delay_ms: 60, white_to_move: m % 2 == 1, w: 0, b: 0, wi: 0, bi: 0, movetime: Some(m) });
+            v.push(TimeCase { with_depth: false, both: 0, delay_ms: 0, white_to_move: m % 2 == 0, w: 0, b: 0, wi: 0, bi: 0, movetime: Some(m) });
+            v.push(TimeCase { with_depth: false, both: 0, delay_ms: 60, white_to_move: m % 2 == 1, w: 0, b: 0, wi: 0, bi: 0, movetime: Some(m) });
         }
         v
     };
@@ -661,6 +674,19 @@ pub fn worker_c13(shard: usize, _nshards: usize, seed: u64, tier: &str, out: &mu
             c13_one(out, &mut sess_delayed, false, &tc, 300);
             out.end();
             continue;
+        }
+        if i % 13 == 12 {
+            // a depth limit the budget cannot reach, together with the budget
+            tc.with_depth = true;
+            if tc.movetime.is_none() {
+                tc.w = rng.range(0, 12_000);
+                tc.b = rng.range(0, 12_000);
+                tc.wi = rng.range(0, 100);
+                tc.bi = rng.range(0, 100);
+            } else {
+                tc.movetime = Some(rng.range(0, 250));
+            }
+            out.add("cases_with_a_depth_limit_and_a_time_budget", 1);
         }
         if i % 11 == 10 {
             // a fixed move time together with clocks
@@ -702,6 +728,7 @@ pub fn run_c13(tier: &str, seed: u64) -> i32 {
         let mut o2 = Out::open(res.to_str().unwrap());
         let c = &v["case"];
         let tc = TimeCase {
+            with_depth: c["with_depth"].as_bool().unwrap_or(false),
             both: c["both"].as_u64().unwrap_or(0) as u8,
             delay_ms: c["delay_ms"].as_u64().unwrap_or(0),
             white_to_move: c["white_to_move"].as_bool().unwrap_or(true),
@@ -734,11 +761,13 @@ pub fn run_c13(tier: &str, seed: u64) -> i32 {
     chk.need("cases on the debug-assertions build", agg.c("time_cases_on_checked_build"), 50);
     chk.need("cases with the timer window stretched", agg.c("cases_with_stretched_timer_window"), 50);
     chk.need("cases with a move time and clocks together", agg.c("cases_with_move_time_and_clocks"), 50);
+    chk.need("cases with a depth limit and a time budget", agg.c("cases_with_a_depth_limit_and_a_time_budget"), 50);
     finalize(chk, &agg)
 }
 
 pub fn replay_c13(case: &Value, out: &mut Out) {
     let tc = TimeCase {
+        with_depth: case["with_depth"].as_bool().unwrap_or(false),
         both: case["both"].as_u64().unwrap_or(0) as u8,
         delay_ms: case["delay_ms"].as_u64().unwrap_or(0),
         white_to_move: case["white_to_move"].as_bool().unwrap_or(true),
@@ -1451,6 +1480,20 @@ pub fn worker_c19(shard: usize, _nshards: usize, seed: u64, tier: &str, out: &mu
             let timed_pre = vec![(small_root(&corpus, &mut rng), 1u8), (root.clone(), 1u8)];
             variants.push((format!("after timed searches (movetime {ms}) and ucinewgame"), c19_script_timed(&root, depth, &timed_pre, ms), vec![], vec![]));
         }
+        // many consecutive resets after a pre-history (counters that wrap, deferred clears)
+        for nreset in if long { vec![256usize] } else { vec![2, 255, 256, 257, 512] } {
+            let mut script = vec![];
+            for (r, d) in &related {
+                script.push(Cmd::Position(r.clone()).text());
+                script.push(format!("go depth {d}"));
+                script.push("wait".to_string());
+            }
+            for _ in 0..nreset {
+                script.push("ucinewgame".to_string());
+            }
+            script.extend(c19_script(&root, depth, &[]));
+            variants.push((format!("after a related pre-history and {nreset} consecutive ucinewgame"), script, vec![], vec![]));
+        }
         // a search still running when ucinewgame arrives (no stop first)
         {
             let mut script = vec![Cmd::Position(root.clone()).text(), "go infinite".to_string(), format!("#sleep {}", if long { 400 } else { 120 }), "ucinewgame".to_string()];
@@ -1516,9 +1559,46 @@ pub fn replay_c19(case: &Value, out: &mut Out) {
 // C08 at the UCI level: a depth limit combined with a time budget, and limits after deeper
 // searches, through the real binary. Decided on the `info depth` lines of each go.
 
+/// Positions on which 64 iterations take well under two seconds (measured): a depth-limited
+/// search that stays silent there for a minute is not "still thinking".
+const LOCKED_TINY: &[&str] = &[
+    "8/8/4k3/4p3/4P3/4K3/8/8 w - - 0 1",
+    "k1p5/p1p5/P1P5/8/7p/p1p5/P1P4P/K1P5 w - - 0 1",
+    "8/8/4k3/8/8/4K3/8/8 w - - 0 1",
+    "8/2k5/8/8/8/8/3K4/8 b - - 0 1",
+    "8/8/8/3k4/8/3K4/8/8 w - - 0 1",
+];
+
 pub fn worker_c08uci(shard: usize, _nshards: usize, seed: u64, tier: &str, out: &mut Out) {
     let corpus = gen::corpus();
     let mut rng = Rng::new(seed, 0x08C1 + shard as u64);
+    // locked tiny positions: the real search thread must survive every depth it is asked for
+    for (i, f) in LOCKED_TINY.iter().enumerate() {
+        if i % 5 != shard % 5 || shard >= 10 {
+            continue;
+        }
+        let checked = shard >= 5;
+        let r = Root { fen: f.to_string(), moves: vec![] };
+        let script = Script {
+            cmds: vec![Cmd::Position(r.clone()), Cmd::GoDepth(50), Cmd::Wait, Cmd::Position(r.clone()), Cmd::GoDepth(64), Cmd::Wait,
+                       Cmd::Position(r.clone()), Cmd::GoDepth(255), Cmd::Wait, Cmd::Position(r.clone()), Cmd::GoInfinite, Cmd::SleepMs(1200), Cmd::Stop,
+                       Cmd::Position(r), Cmd::GoDepth(2), Cmd::Await, Cmd::Quit],
+            delays: vec![], checked_build: checked };
+        let name = format!("C08-uci-locked/{f}/checked={checked}");
+        out.begin(&json!({"kind":"session","scenario":name,"script":script.json()}));
+        let res = run_script(&script, &format!("c08l-{shard}-{i}"), Duration::from_secs(60));
+        out.add("uci_sessions", 1);
+        out.add("uci_locked_tiny_sessions", 1);
+        let deepest = res.gos.iter().flat_map(|g| g.depth_lines.iter()).filter_map(|d| d.parse::<u64>().ok()).max().unwrap_or(0);
+        out.maxi("uci_deepest_iteration_on_locked_tiny", deepest);
+        for (code, msg) in res.faults.iter().filter(|f| matches!(f.0.as_str(), "panic" | "died" | "exit-status" | "missing-bestmove")) {
+            out.viol("C08", &format!("C08|uci-{code}|{name}"), &format!("[{name}] {msg}"), json!({"kind":"session","scenario":name,"script":script.json(),"transcript_tail":res.transcript.iter().rev().take(12).rev().collect::<Vec<_>>()}));
+        }
+        for (code, msg) in &res.silences {
+            out.viol("C08", &format!("C08|uci-{code}|{name}"), &format!("[{name}] {msg}"), json!({"kind":"session","scenario":name,"script":script.json()}));
+        }
+        out.end();
+    }
     let n = match tier {
         "thorough" => 60,
         _ => 5,
